@@ -170,7 +170,9 @@ def check(repo: Repo, run: Run) -> None:
                          "bisect(addresses, address) under the same condition: the lists are no longer parallel or sorted",
            facts={"address_insert": [sym.pretty(x)[:60] for x in a_ins[0].args] if a_ins else None,
                   "uuid_insert": [sym.pretty(x)[:60] for x in u_ins[0].args] if u_ins else None}, line=ii.lineno)
-    other = [e for e in rec.effects if e not in a_ins + u_ins]
+    # (a counter - `self.n += 1` - is bookkeeping nobody reads: not a mutation of the tables)
+    other = [e for e in rec.effects if e not in a_ins + u_ins and not (
+        e.kind == "attr-store" and (e.path or e.base) == SELF and e.aug is not None and e.key not in ("dyld_addresses", "dyld_uuids"))]
     run.ob("R1", MOD, "CallstacksParser.insert_image", "no other mutation", not other,
            f"insert_image also performs {[(e.kind, e.key) for e in other]}", nontrivial=False)
     dup = T("cmp", ("in", addr, ADDRS))
@@ -188,6 +190,24 @@ def check(repo: Repo, run: Run) -> None:
     if len(outer) != 1:
         raise AnalysisError("feed_generator: the loop over the trace stream was not found")
     trace = outer[0].target
+    # every announced image is inserted: an insert_image call made inside a generator that `any` / `all` / `next` consumes
+    # stops at the first result that settles it, the rest of the list is never inserted
+    ins_calls = [c for c in rec.calls if c.func == T("attr", (SELF, "insert_image"))]
+    lazy = []
+    for c in ins_calls:
+        for lid in c.loops:
+            lr = rec.loops.get(lid)
+            if lr is not None and lr.kind == "comp" and lr.term is not None and lr.term.a[0] == "gen":
+                for c2 in rec.calls:
+                    if c2.func in (T("builtin", ("any",)), T("builtin", ("all",)), T("builtin", ("next",))) and c2.args \
+                            and sym.contains(c2.args[0], lr.term):
+                        lazy.append((c, c2))
+    run.ob("R1", MOD, "CallstacksParser.feed_generator", "every image of a list is handed to insert_image", not lazy,
+           "" if not lazy else
+           f"feed_generator calls insert_image inside a generator consumed by {sym.pretty(lazy[0][1].func)}(): it stops at the first "
+           f"call that settles the result, so the images behind it in the list are never inserted and their frames are "
+           f"attributed to the image below", line=lazy[0][0].lineno if lazy else fg.lineno, nontrivial=bool(lazy),
+           witness="a launch list with two images that are both new")
     frames_src = T("attr", (trace, "cs_frames"))
     FRAME = T("global", (f"{MOD}.Frame",))
     ffields = _nt_fields(repo, "callstacks_parser", "Frame")
